@@ -28,7 +28,11 @@ RULE = ('cases: valid scalars by class (1, 2, 3, n-1, n-2, 2^k, 2^k-1, sparse, s
         '(exposes state kept between key objects); every hexadecimal text import (private hex, hex+01, HDKey(hex), public compressed / '
         'uncompressed hex, Address(data/hashed_data=hex)) in lower, UPPER and two mixed letter cases; address cells and encoding '
         'functions fed ready-made 20/32-byte hashes incl. hashes that begin like a script or witness-program header (00|51..60, '
-        'then len-2 / 12 / 1e / 26 / 14 / 20), leading-zero, all-zero, all-ff. non-trivial = distinct '
+        'then len-2 / 12 / 1e / 26 / 14 / 20), leading-zero, all-zero, all-ff; the full matrix of optional arguments of Address() '
+        '(witness_type x script_type x encoding given or omitted, prefix given or not, data vs hashed_data, bytes vs hex; key and script '
+        'data; p2tr), Address.parse (no / network / encoding / all optional arguments), Key.address() and HDKey.address() (script_type x '
+        'encoding x compressed x prefix) and the HDKey constructor (witness_type x encoding x multisig), judged exactly where the '
+        'arguments agree on one kind and by the weak rule where they contradict each other. non-trivial = distinct '
         '(case kind, scalar/point class, import format, compressed, network) and (network, address cell, route) tuples')
 TRUSTED_BASE = ['vf/refs/secp256k1.py (self-checked on G, 2G, (n-1)G, nG, hash160 vector)',
                 'vf/refs/chain.py + vf/refs/codec.py (Base58Check, Bech32/Bech32m self-checked on BIP173/350 vectors)',
@@ -43,7 +47,11 @@ ASSUMPTIONS = ['refused = any exception from construction or from the first addr
                '(a string no decoder accepts) is a deviation',
                'Key.address() without arguments follows the last used encoding/script type of that object by design; default '
                'calls are judged on fresh objects',
-               'segwit addresses of uncompressed keys are refused by design (BKeyError) - accepted as refusal, never demanded']
+               'segwit addresses of uncompressed keys are refused by design (BKeyError) - accepted as refusal, never demanded',
+               'argument matrix: each optional argument of Address()/Key.address()/HDKey() either says nothing or names a set of '
+               'address kinds (docstrings); the denoted kind is the intersection, base58 with no wrap indication means the plain kind, '
+               'an empty intersection is judged by the weak rule, several remaining kinds (nothing specified) accept any of them; '
+               "sig_pubkey says nothing; p2sh_multisig says P2SH or P2WSH; p2tr with witness_type='taproot' is exercised with witver=1 only"]
 EXHAUSTIVE = ['all 11 networks x 13 standard address cells per route (cycled over keys)',
               'boundary scalars {0, 1, 2, 3, n-2, n-1, n, n+1, 2^256-1} in every private import format',
               '2^k and 2^k-1 for every k (thorough)']
@@ -535,6 +543,229 @@ def run_hash(case, col, rnd):
                 col.violation(None, '%s on %s is not the standard encoding of this hash' % (name, net), c, got, exp)
 
 
+# ------------------------------------------------------------------ optional-argument combinations (inferred script type)
+# What each optional argument says about the kind of address, per the docstrings of Address / Key.address / HDKey:
+# None = says nothing. The denoted kind is the intersection of what the given arguments say.
+_KEY_KINDS = ('PKH', 'WPKH', 'SH-WPKH')
+_KEY_ST = {None: None, 'sig_pubkey': None, 'p2pkh': {'PKH'}, 'p2wpkh': {'WPKH'}, 'p2sh_p2wpkh': {'SH-WPKH'}}
+_KEY_WT = {None: None, 'legacy': {'PKH'}, 'segwit': {'WPKH'}, 'p2sh-segwit': {'SH-WPKH'}}
+_KEY_ENC = {None: None, 'base58': {'PKH', 'SH-WPKH'}, 'bech32': {'WPKH'}}
+_SCR_KINDS = ('SH', 'WSH', 'SH-WSH')
+_SCR_ST = {'p2sh': {'SH'}, 'p2wsh': {'WSH'}, 'p2sh_p2wsh': {'SH-WSH'}, 'p2sh_multisig': {'SH', 'WSH'}}
+_SCR_WT = {None: None, 'legacy': {'SH'}, 'segwit': {'WSH'}, 'p2sh-segwit': {'SH-WSH'}}
+_SCR_ENC = {None: None, 'base58': {'SH', 'SH-WSH'}, 'bech32': {'WSH'}}
+
+
+def _denote(kinds, votes, enc, plain):
+    """-> set of kinds the arguments denote (empty = contradictory). base58 without any wrap indication means the plain kind."""
+    out = set(kinds)
+    for v in votes:
+        if v is not None:
+            out &= v
+    if len(out) > 1 and enc == 'base58' and plain in out:
+        out = {plain}
+    return out
+
+
+def _kind_address(net, kind, h20=None, h32=None):
+    if kind in ('PKH', 'SH'):
+        return rchain.address_base58(net, 'p2pkh' if kind == 'PKH' else 'p2sh', h20)
+    if kind == 'WPKH':
+        return rchain.address_segwit(net, 0, h20)
+    if kind == 'SH-WPKH':
+        return rchain.address_base58(net, 'p2sh', ec.hash160(rchain.script_witness(0, h20)))
+    if kind == 'WSH':
+        return rchain.address_segwit(net, 0, h32)
+    if kind == 'SH-WSH':
+        return rchain.address_base58(net, 'p2sh', ec.hash160(rchain.script_witness(0, h32)))
+    return rchain.address_segwit(net, 1, h32)        # TR
+
+
+def _kind_prefix(net, kind, j):
+    nw = rchain.NETWORKS[net]
+    if kind in ('WPKH', 'WSH', 'TR'):
+        return nw['hrp']
+    v = nw['p2pkh'] if kind == 'PKH' else nw['p2sh']
+    return bytes.fromhex(v) if j % 2 else v.lower()
+
+
+def _weak_set(net, h20, h32):
+    out = set()
+    if h20 is not None:
+        out |= {rchain.address_base58(net, 'p2pkh', h20), rchain.address_base58(net, 'p2sh', h20), rchain.address_segwit(net, 0, h20),
+                rchain.address_base58(net, 'p2sh', ec.hash160(rchain.script_witness(0, h20)))}
+    if h32 is not None:
+        out |= {rchain.address_segwit(net, 0, h32), rchain.address_segwit(net, 1, h32),
+                rchain.address_base58(net, 'p2sh', ec.hash160(rchain.script_witness(0, h32)))}
+    return out
+
+
+def run_args(case, col, rnd=None):
+    """Address(), Address.parse, Key.address() and HDKey(...).address() over the combinations of their optional arguments
+    (witness_type / script_type / encoding / prefix / compressed given or left to be inferred; data vs hashed_data; bytes vs hex).
+    Combinations whose arguments agree are judged exactly; contradictory ones by the weak rule."""
+    from bitcoinlib.keys import Address, Key, HDKey
+    net = case['network']
+    pt = (int(case['x'], 16), int(case['y'], 16))
+    tc = case.get('textcase', 'lower')
+    pub = ec.encode_pub(pt, True)
+    h = ec.hash160(pub)
+    script = rchain.script_multisig(1, [pub]) if pt[1] & 2 else rchain.script_p2pk(pub)
+    hs, ss = ec.hash160(script), ec.sha256(script)
+    only = case.get('only')
+    col.case('args/%s' % net, nontrivial=None, sample=case)
+    n = [0]
+
+    def judge(route, sig, call, denoted, h20, h32, extra_hashes=()):
+        """sig = jsonable description of the argument combination"""
+        if only is not None and only != [route] + list(sig):
+            return
+        n[0] += 1
+        strict = len(denoted) >= 1
+        col.probe('args.strict' if strict else 'args.weak')
+        col.case('args/%s/%s' % (route, 'strict' if strict else 'contradictory'),
+                 nontrivial=('args', route) + tuple(sig) + (tuple(sorted(denoted)),), sample=None)
+        c = dict(case, only=[route] + list(sig))
+        try:
+            got = call()
+        except Exception as e:
+            if strict:
+                col.violation(None, '%s%r on %s raised %r' % (route, tuple(sig), net, e), c, repr(e)[:300], sorted(denoted))
+            return
+        if strict:
+            exp = {_kind_address(net, k, h20, h32) for k in denoted}
+            if got not in exp:
+                _addr_violation(col, net, (h32,) + tuple(extra_hashes) if h32 else tuple(extra_hashes),
+                                '%s%r on %s is not the %s address the arguments denote' % (route, tuple(sig), net, '/'.join(sorted(denoted))),
+                                c, got, sorted(exp))
+        elif got not in _weak_set(net, h20, h32):
+            _addr_violation(col, net, (h32,) + tuple(extra_hashes) if h32 else tuple(extra_hashes),
+                            '%s%r on %s (contradictory arguments) returned a string that is no standard address of the data' % (route, tuple(sig), net),
+                            c, got, 'refusal or a standard address committing to the data')
+
+    # ---- Address() on a public key / its hash
+    j = 0
+    for wt in (None, 'legacy', 'segwit', 'p2sh-segwit'):
+        for st in (None, 'p2pkh', 'sig_pubkey', 'p2wpkh', 'p2sh_p2wpkh'):
+            for enc in (None, 'base58', 'bech32'):
+                den = _denote(_KEY_KINDS, (_KEY_WT[wt], _KEY_ST[st], _KEY_ENC[enc]), enc, 'PKH')
+                for src, kw in (('data-bytes', {'data': pub}), ('data-hex', {'data': _tc(pub.hex(), tc)}),
+                                ('hash-bytes', {'hashed_data': h}), ('hash-hex', {'hashed_data': _tc(h.hex(), tc)})):
+                    j += 1
+                    kw = dict(kw, network=net)
+                    if wt is not None or j % 2:
+                        kw['witness_type'] = wt
+                    if st is not None or j % 3:
+                        kw['script_type'] = st
+                    if enc is not None or j % 5:
+                        kw['encoding'] = enc
+                    pfx = None
+                    if len(den) == 1 and j % 4 == 0:
+                        pfx = _kind_prefix(net, next(iter(den)), j // 4)
+                        kw['prefix'] = pfx
+                    judge('Address', [wt, st, enc, src, pfx.hex() if isinstance(pfx, bytes) else pfx],
+                          lambda kw=kw: Address(**kw).address, den, h, None, (ec.sha256(pub),))
+    # ---- Address() on a script / its hash
+    for wt in (None, 'legacy', 'segwit', 'p2sh-segwit'):
+        for st in ('p2sh', 'p2wsh', 'p2sh_p2wsh', 'p2sh_multisig'):
+            for enc in (None, 'base58', 'bech32'):
+                den = _denote(_SCR_KINDS, (_SCR_WT[wt], _SCR_ST[st], _SCR_ENC[enc]), enc, 'SH')
+                srcs = [('data-bytes', {'data': script}), ('data-hex', {'data': _tc(script.hex(), tc)})]
+                if len(den) == 1:
+                    hh = hs if next(iter(den)) == 'SH' else ss
+                    srcs += [('hash-bytes', {'hashed_data': hh}), ('hash-hex', {'hashed_data': _tc(hh.hex(), tc)})]
+                for src, kw in srcs:
+                    j += 1
+                    kw = dict(kw, network=net, script_type=st)
+                    if wt is not None or j % 2:
+                        kw['witness_type'] = wt
+                    if enc is not None or j % 3:
+                        kw['encoding'] = enc
+                    pfx = None
+                    if len(den) == 1 and j % 4 == 0:
+                        pfx = _kind_prefix(net, next(iter(den)), j // 4)
+                        kw['prefix'] = pfx
+                    judge('Address(script)', [wt, st, enc, src, pfx.hex() if isinstance(pfx, bytes) else pfx],
+                          lambda kw=kw: Address(**kw).address, den, hs, ss)
+    # ---- p2tr from a program (witver left at its default only when witness_type is left to be inferred)
+    prog = pub[1:]
+    for wt, wv in ((None, None), (None, 1), ('taproot', 1)):
+        for enc in (None, 'bech32'):
+            for src, arg in (('hash-bytes', prog), ('hash-hex', _tc(prog.hex(), tc))):
+                kw = {'hashed_data': arg, 'script_type': 'p2tr', 'network': net}
+                if wt:
+                    kw['witness_type'] = wt
+                if wv:
+                    kw['witver'] = wv
+                if enc:
+                    kw['encoding'] = enc
+                judge('Address(p2tr)', [wt, wv, enc, src], lambda kw=kw: Address(**kw).address, {'TR'}, None, prog)
+    # ---- Address.parse of every standard address of these data, with and without its optional arguments
+    for kind in _KEY_KINDS + _SCR_KINDS + ('TR',):
+        h20 = h if kind in _KEY_KINDS else hs
+        h32 = prog if kind == 'TR' else ss
+        a = _kind_address(net, kind, h20, h32)
+        payload = {'PKH': h, 'WPKH': h, 'SH-WPKH': ec.hash160(rchain.script_witness(0, h)), 'SH': hs, 'WSH': ss,
+                   'SH-WSH': ec.hash160(rchain.script_witness(0, ss)), 'TR': prog}[kind]
+        enc = 'bech32' if kind in ('WPKH', 'WSH', 'TR') else 'base58'
+        for label, kw in (('()', {}), ('(network)', {'network': net}), ('(encoding)', {'encoding': enc}),
+                          ('(all)', {'network': net, 'encoding': enc, 'compressed': True, 'depth': 0, 'change': 0, 'address_index': 0})):
+            if only is not None and only != ['Address.parse', kind, label]:
+                continue
+            col.probe('args.parse')
+            col.case('args/Address.parse', nontrivial=('args', 'parse', kind, label), sample=None)
+            c = dict(case, only=['Address.parse', kind, label])
+            try:
+                o = Address.parse(a, **kw)
+                got = [o.address, bytes(o.hash_bytes).hex(), o.encoding]
+            except Exception as e:
+                col.violation(None, 'Address.parse%s of the %s address on %s raised %r' % (label, kind, net, e), c, repr(e)[:300], a)
+                continue
+            if got != [a, payload.hex(), enc]:
+                col.violation(None, 'Address.parse%s of the %s address on %s does not give back address / hash / encoding' % (label, kind, net),
+                              c, got, [a, payload.hex(), enc])
+    # ---- Key.address() / HDKey.address() on fresh objects; encoding omitted means base58 for Key (docstring)
+    pubu = ec.encode_pub(pt, False)
+    hu = ec.hash160(pubu)
+    for mk_name, mk in (('Key', lambda: Key(pub, network=net)),
+                        ('HDKey', lambda: HDKey(key=pub, chain=b'\x02' * 32, is_private=False, network=net, witness_type='legacy'))):
+        for st in (None, 'p2pkh', 'p2wpkh', 'p2sh_p2wpkh'):
+            for enc in (None, 'base58', 'bech32'):
+                den = _denote(_KEY_KINDS, (_KEY_ST[st], _KEY_ENC[enc or 'base58']), enc or 'base58', 'PKH')
+                for comp in (None, True):
+                    j += 1
+                    kw = {}
+                    if st is not None or j % 2:
+                        kw['script_type'] = st
+                    if enc is not None or j % 3:
+                        kw['encoding'] = enc
+                    if comp is not None:
+                        kw['compressed'] = comp
+                    pfx = None
+                    if len(den) == 1 and j % 3 == 0:
+                        pfx = _kind_prefix(net, next(iter(den)), j // 3)
+                        kw['prefix'] = pfx
+                    judge('%s.address' % mk_name, [st, enc, comp, pfx.hex() if isinstance(pfx, bytes) else pfx],
+                          lambda kw=kw, mk=mk: mk().address(**kw), den, h, None, (ec.sha256(pub),))
+        for st in (None, 'p2pkh'):
+            judge('%s.address' % mk_name, [st, 'base58', False, None], lambda st=st, mk=mk: mk().address(compressed=False, script_type=st, encoding='base58'),
+                  {'PKH'}, hu, None)
+    # ---- HDKey constructor arguments decide the default address
+    for wt in (None, 'legacy', 'segwit', 'p2sh-segwit'):
+        for enc in (None, 'base58', 'bech32'):
+            for ms in (False, True):
+                den = _denote(_KEY_KINDS, (_KEY_WT[wt], _KEY_ENC[enc]), enc, 'PKH') if not ms else set()
+                for src, kkw in (('public', {'key': pub, 'is_private': False, 'chain': b'\x03' * 32}),):
+                    kw = dict(kkw, network=net, multisig=ms)
+                    if wt is not None:
+                        kw['witness_type'] = wt
+                    if enc is not None:
+                        kw['encoding'] = enc
+                    judge('HDKey().address', [wt, enc, ms, src], lambda kw=kw: HDKey(**kw).address(), den, h, ec.sha256(pub) if ms else None)
+    if n[0] == 0 and only is not None:
+        col.note_inconclusive('replay cell %r not found' % (only,))
+
+
 # ------------------------------------------------------------------ sequences: state kept between key objects
 SCHEDULES = ('eager', 'lazy-reverse', 'lazy-forward', 'interleaved')
 
@@ -848,6 +1079,8 @@ def run_case(case, col, rnd=None):
         run_sequence(case, col, rnd)
     elif k == 'hash':
         run_hash(case, col, rnd)
+    elif k == 'args':
+        run_args(case, col, rnd)
 
 
 def _selfcheck(col):
@@ -882,7 +1115,7 @@ def run_shard(spec, col):
         return
     for p in ('key.private', 'key.public', 'keyfacts', 'address.key', 'address.obj', 'address.script', 'address.p2tr', 'address.hdkey',
               'address.nonstandard_pair', 'neg.scalar', 'neg.public', 'key.public()', 'seq.construct', 'seq.observe', 'address.hash',
-              'address.hash_direct', 'key.text_not_lowercase'):
+              'address.hash_direct', 'key.text_not_lowercase', 'args.strict', 'args.weak', 'args.parse'):
         col.require(p)
     # the library must know exactly the golden networks (a missing/extra network is a change the table must follow)
     from bitcoinlib.networks import NETWORK_DEFINITIONS
@@ -930,6 +1163,9 @@ def run_shard(spec, col):
         for fmt in TEXT_PUB:
             run_public({'kind': 'public', 'x': '%x' % pt[0], 'y': '%x' % pt[1], 'src': 'dG', 'fmt': fmt, 'network': next_net(),
                         'textcase': TEXTCASES[1 + (j + sh) % 3]}, col, rnd)
+    # the optional-argument matrix once per shard on a shard-specific key and network
+    ptA = ec.mul_g(77 + sh)
+    run_args({'kind': 'args', 'x': '%x' % ptA[0], 'y': '%x' % ptA[1], 'network': nets[sh % len(nets)], 'textcase': TEXTCASES[sh % 4]}, col, rnd)
     # header-like hashes, one of every (first byte class, length) per shard
     for n_h in (20, 32):
         for first in (0x00, 0x51 + sh):
@@ -944,7 +1180,11 @@ def run_shard(spec, col):
         if r2 < 0.12:
             run_sequence(gen_sequence(rnd, net), col, rnd)
             continue
-        if r2 < 0.22:
+        if r2 < 0.16:
+            ptA = ec.mul_g(gen_scalar(rnd))
+            run_args({'kind': 'args', 'x': '%x' % ptA[0], 'y': '%x' % ptA[1], 'network': net, 'textcase': gen_textcase(rnd)}, col, rnd)
+            continue
+        if r2 < 0.26:
             hh, hcls = gen_hash(rnd)
             run_hash({'kind': 'hash', 'h': hh.hex(), 'cls': hcls, 'network': net, 'textcase': gen_textcase(rnd)}, col, rnd)
             continue
